@@ -273,3 +273,63 @@ func HarnessC15NilBatch() {
 	vndReach("nil-batch")
 	vndAssert(p.Shutdown(context.Background()) == nil, "provider-shutdown-harmless")
 }
+
+// C15.simpleendshutdown: a span ending (slow export) while the simple span
+// processor is shut down from another goroutine: the exporter is not shut down
+// underneath a running export, and nothing is exported once Shutdown returned
+type c15SlowExp struct {
+	mu        sync.Mutex
+	in        int
+	shutdowns int
+	downWhile bool // the exporter was shut down while an export was running
+	late      bool // an export began after the exporter had been shut down
+}
+
+func (e *c15SlowExp) ExportSpans(context.Context, []ReadOnlySpan) error {
+	e.mu.Lock()
+	if e.shutdowns > 0 {
+		e.late = true
+	}
+	e.in++
+	e.mu.Unlock()
+	vndYield() // a slow exporter
+	e.mu.Lock()
+	e.in--
+	e.mu.Unlock()
+	return nil
+}
+
+func (e *c15SlowExp) Shutdown(context.Context) error {
+	e.mu.Lock()
+	e.shutdowns++
+	if e.in > 0 {
+		e.downWhile = true
+	}
+	e.mu.Unlock()
+	return nil
+}
+
+func HarnessC15SimpleEndShutdown() {
+	vndRaceOn(true)
+	e := &c15SlowExp{}
+	ssp := NewSimpleSpanProcessor(e)
+	p := c15Provider()
+	p.RegisterSpanProcessor(ssp)
+	_, s := p.Tracer("t").Start(context.Background(), "s")
+	var wg sync.WaitGroup
+	wg.Add(2)
+	go func() { defer wg.Done(); s.End() }()
+	go func() {
+		defer wg.Done()
+		if vndChoice(2) == 1 {
+			p.Shutdown(context.Background())
+		} else {
+			ssp.Shutdown(context.Background())
+		}
+	}()
+	wg.Wait()
+	vndReach("joined")
+	vndAssert(e.shutdowns == 1, "exporter-shut-down-exactly-once")
+	vndAssert(!e.downWhile, "exporter-not-shut-down-underneath-a-running-export")
+	vndAssert(!e.late, "nothing-exported-after-shutdown-returned")
+}
